@@ -267,6 +267,10 @@ def run_line(seed, out, bump):
                                  'multi-merge'])]
     classes += [rng_scene.choice(LINE_CLASSES) for _ in range(n_workers - 1)]
     rng_scene.shuffle(classes)
+    if rng_scene.random() < 1 / 16:          # both chunks large (> 1000 hits each)
+        classes = ['large', 'large']
+        n_workers = 2
+        bump('probe.large_job_pair')
     jobs = [gen_job(rng_scene, c) for c in classes]
     if rng_scene.random() < 0.3:
         jobs[1] = gen_job(rng_scene, None, twin_of=jobs[0])
